@@ -208,6 +208,23 @@ void harness::run_case(const eng::Raw& raw, eng::Ctx& ctx)
 		expect_equiv(ctx, "fa-unreach", T1, VA, "RemoveUnreachableStates");
 		{ eng::LibSection ls(ctx, "fa:RemoveUselessStates"); t2 = a.RemoveUselessStates(); T2 = libfa::read(t2); }
 		expect_equiv(ctx, "fa-useless", T2, VA, "RemoveUselessStates");
+		// the map argument, fresh and RE-USED (it arrives non-empty, filled by trimming the other operand)
+		VATA::AutBase::StateToStateMap reused;
+		ExplicitFiniteAut t3, t4, t5;
+		ref::NFA T3, T4, T5;
+		{
+			eng::LibSection ls(ctx, "fa:trim(reused-map)");
+			ExplicitFiniteAut bb(b);
+			(void)bb.RemoveUnreachableStates(&reused);
+			(void)bb.RemoveUselessStates(&reused);
+			t3 = a.RemoveUnreachableStates(&reused); T3 = libfa::read(t3);
+			t4 = a.RemoveUselessStates(&reused); T4 = libfa::read(t4);
+			VATA::AutBase::StateToStateMap fresh;
+			t5 = a.RemoveUselessStates(&fresh); T5 = libfa::read(t5);
+		}
+		expect_equiv(ctx, "fa-unreach-reused-map", T3, VA, "RemoveUnreachableStates with a re-used map");
+		expect_equiv(ctx, "fa-useless-reused-map", T4, VA, "RemoveUselessStates with a re-used map");
+		expect_equiv(ctx, "fa-useless-map", T5, VA, "RemoveUselessStates with a fresh map");
 	}
 	// --- witness
 	{
